@@ -34,8 +34,11 @@ LEVEL_NOTE = ("floating-point rounding not modelled (rel 1e-9, exit points abs 1
               "{u | r(u) <= rho} = (rho/dr)^2, cos(theta) affine in u, z and box coordinates affine) but not the 3-D "
               "change of variables to volume / solid-angle measure; C13_cyl_exit_brackets_vertex_partial covers the "
               "classification of returned points for any input; C13_cyl_exit_total_generic proves totality + strict bracketing + "
-              "collinearity for a vertex strictly inside and d_x != 0 (the d_x = 0 branch, boundary vertices and grazing "
-              "tangency are left to the correspondence run); C13_box_exit_total is proved at full strength; the "
+              "collinearity for a vertex strictly inside and d_x != 0, C13_cyl_exit_total_dx_zero the same for d_x = 0, d_y != 0 "
+              "(the exactly vertical direction divides by zero in the source - IEEE vs Lean semantics differ -, boundary "
+              "vertices and grazing tangency are left to the correspondence run); C13_box_exit_total is proved at full strength; a vertex exactly on the "
+              "cylinder SIDE surface makes get_exit_points raise in about half of the directions (K18, reachable only when "
+              "dr*sqrt(u) rounds to dr); the "
               "survival weight inherits the exit-node ambiguity of slant_depth (C15): the run accepts either value and "
               "skips shadow decisions within 1e-3 of the threshold; KS tests only in the thorough search (p=1e-6)")
 ASSUMPTIONS = ["np.random.uniform(low, high) = low + (high-low)*u elementwise", "np.linalg.norm, np.sum by specification"]
@@ -78,8 +81,20 @@ def inside_vertex(rng, vol):
     return [vol[1] * (rng.random() - 0.5), vol[2] * (rng.random() - 0.5), -vol[3] * rng.random()]
 
 
+def boundary_vertex(rng, vol):
+    """a vertex EXACTLY on the boundary: box faces / edges / corners, cylinder caps (the cylinder side is K18)"""
+    v = inside_vertex(rng, vol)
+    if vol[0] == "box":
+        sides = [(-vol[1] / 2, vol[1] / 2), (-vol[2] / 2, vol[2] / 2), (-vol[3], 0.0)]
+        for j in rng.sample([0, 1, 2], rng.randint(1, 3)):
+            v[j] = rng.choice(sides[j])
+    else:
+        v[2] = rng.choice([0.0, -vol[2]])
+    return v
+
+
 def draw_direction(rng, vol, v):
-    kind = rng.choice(["iso", "iso", "iso", "axis", "plane", "vertical", "grazing", "xzero", "tiny"])
+    kind = rng.choice(["iso", "iso", "iso", "axis", "plane", "vertical", "grazing", "xzero", "tiny", "tinyxy"])
     if kind == "iso":
         d = [rng.gauss(0, 1) for _ in range(3)]
     elif kind == "axis":
@@ -101,6 +116,9 @@ def draw_direction(rng, vol, v):
             rng.shuffle(d)
     elif kind == "xzero":
         d = [0.0, rng.gauss(0, 1), rng.gauss(0, 1)]
+    elif kind == "tinyxy":     # a horizontal component that is tiny but NOT zero (general branch of the cylinder code)
+        d = [rng.gauss(0, 1), rng.gauss(0, 1), rng.gauss(0, 1)]
+        d[rng.randrange(2)] = 10 ** rng.uniform(-7.5, -3) * rng.choice([-1, 1])   # below ~1e-8 the slope form loses digits
     else:
         d = [rng.gauss(0, 1), rng.gauss(0, 1), 10 ** rng.uniform(-14, -6) * rng.choice([-1, 1])]
     return d, kind
@@ -211,8 +229,13 @@ def correspondence(run):
     for i in range(run.scale(400, 5000)):
         vol = draw_volume(rng)
         gen = make_gen(vol)
-        v = inside_vertex(rng, vol)
+        onb = rng.random() < 0.15
+        v = boundary_vertex(rng, vol) if onb else inside_vertex(rng, vol)
         d, kind = draw_direction(rng, vol, v)
+        if onb:
+            if kind == "grazing":
+                d, kind = [rng.gauss(0, 1) for _ in range(3)], "iso"
+            kind = kind + "_boundaryvertex"
         p = base_particle(v, d)
         impl = exit_impl(gen, p)
         reqs.append("exit %s %s" % (vol_toks(vol), fw.fl([float(x) for x in p.vertex] + [float(x) for x in p.direction])))
@@ -405,7 +428,7 @@ def check_exit(run, vol, v, d, kind):
     size = vol_size(vol)
     if res is None:
         # generic position must give points; degenerate directions (tangency, rounding at an edge) may not
-        if kind in ("iso", "axis", "plane", "vertical", "xzero"):
+        if kind in ("iso", "axis", "plane", "vertical", "xzero", "tinyxy"):
             run.fail_input("exit-points", inp, observed="ValueError", what="exit points could not be determined")
         return
     a, b = np.array(res[:3]), np.array(res[3:])
@@ -691,6 +714,65 @@ def check_weights_reuse(run, vol, model, earth_name, calls):
             return
 
 
+def check_reconfigure(run, vol0, steps):
+    """query - mutate - query on ONE generator: public attributes (dimensions, flavour ratio, source, Earth model,
+    interaction model) are reassigned between draws; after every reassignment the samplers, exit points and weights
+    must be those of a FRESH generator built with the current configuration (same tape).
+    steps: ["set", attr, value] | ["vertex"] | ["ptype"] | ["exit", v, d] | ["weights", type, E, v, d]"""
+    import pyrex.particle as pp
+    cfg = {"vol": list(vol0), "ratio": (1, 1, 1), "source": "cosmogenic", "earth": "prem", "model": "ctw"}
+
+    def fresh():
+        return make_gen(tuple(cfg["vol"]), 1e9, flavor_ratio=cfg["ratio"], source=cfg["source"],
+                        interaction_model=c14.model_cls(cfg["model"]), earth_model=earths()[cfg["earth"]])
+    gen = fresh()
+    names = {"cyl": ["dr", "dz"], "box": ["dx", "dy", "dz"]}[vol0[0]]
+    for k, st in enumerate(steps):
+        got = want = None
+        if st[0] == "set":
+            attr, val = st[1], st[2]
+            if attr in names:
+                setattr(gen, attr, val); cfg["vol"][1 + names.index(attr)] = val
+            elif attr == "ratio":
+                gen.ratio = np.array(val) / np.sum(val); cfg["ratio"] = tuple(val)
+            elif attr == "source":
+                gen.source = val; cfg["source"] = val
+            elif attr == "earth":
+                gen.earth_model = earths()[val]; cfg["earth"] = val
+            elif attr == "model":
+                gen.interaction_model = c14.model_cls(val); cfg["model"] = val
+            continue
+        us = [run.rng.random() for _ in range(3)]
+        if st[0] == "vertex":
+            with Tape(run.rng, inject=list(us)):
+                got = [float(x) for x in gen.get_vertex()]
+            with Tape(run.rng, inject=list(us)):
+                want = [float(x) for x in fresh().get_vertex()]
+        elif st[0] == "ptype":
+            with Tape(run.rng, inject=list(us)):
+                got = FL[gen.get_particle_type().value]
+            with Tape(run.rng, inject=list(us)):
+                want = FL[fresh().get_particle_type().value]
+        elif st[0] == "exit":
+            p = base_particle(st[1], st[2])
+            got, want = exit_impl(gen, p), exit_impl(fresh(), p)
+        elif st[0] == "weights":
+            with Tape(run.rng):
+                p = pp.Particle(st[1], st[3], st[4], st[2], interaction_model=c14.model_cls(cfg["model"]), interaction_type="cc")
+            try:
+                got = [float(x) for x in gen.get_weights(p)]
+                want = [float(x) for x in fresh().get_weights(p)]
+            except ValueError:
+                continue
+        same = got == want if not isinstance(got, list) or got is None or want is None else fw.all_close(got, want, 1e-12, 0.0)
+        if not same:
+            run.fail_input("reconfigure", {"volume": list(vol0), "steps": [list(x) for x in steps[:k + 1]]},
+                           observed={"step": k, "reused": got, "fresh": want, "config": {kk: (list(v) if isinstance(v, tuple) else v) for kk, v in cfg.items()}},
+                           what="after reassigning attributes of a generator its %s differs from that of a fresh generator "
+                                "with the same configuration" % st[0])
+            return
+
+
 def ks_stat(xs):
     xs = np.sort(np.asarray(xs))
     n = len(xs)
@@ -731,6 +813,31 @@ def search(run, deep):
         run.case(("oracle-list-history", n, loop, tuple(ops)))
         run.count("oracle_list_history_sets", sum(1 for o in ops if o[0] == "s"))
         check_list_history(run, n, loop, ops)
+    # query - mutate - query: attributes of one generator reassigned between draws
+    for i in range(15 * mult):
+        vol = draw_volume(rng)
+        names = {"cyl": ["dr", "dz"], "box": ["dx", "dy", "dz"]}[vol[0]]
+        cur = list(vol)
+        steps = [["vertex"], ["ptype"]]
+        for k in range(rng.randint(3, 7)):
+            what = rng.choice(names + ["ratio", "source", "earth", "model"])
+            if what in names:
+                val = cur[1 + names.index(what)] * rng.choice([0.25, 0.5, 2.0, 3.0]); cur[1 + names.index(what)] = val
+            elif what == "ratio":
+                val = list(rng.choice([(1, 0, 0), (0, 1, 0), (0, 0, 1), (1, 2, 3), (3, 1, 1)]))
+            elif what == "source":
+                val = rng.choice(["cosmogenic", "astrophysical"])
+            elif what == "earth":
+                val = rng.choice(["prem", "cmc"])
+            else:
+                val = rng.choice(["gqrs", "ctw"])
+            steps.append(["set", what, val])
+            v = inside_vertex(rng, tuple(cur))
+            steps += [["vertex"], ["ptype"], ["exit", v, [rng.gauss(0, 1) for _ in range(3)]],
+                      ["weights", rng.choice([t[0] for t in c14.TYPES]), 10 ** rng.uniform(4, 11), v, [rng.gauss(0, 1) for _ in range(3)]]]
+        run.case(("oracle-reconfigure", vol, str(steps)[:200]))
+        run.count("oracle_reconfigure_sets", sum(1 for x in steps if x[0] == "set"))
+        check_reconfigure(run, vol, steps)
     # one generator object reused: same energy with both nu / nubar, several energies, all flavours
     for i in range(12 * mult):
         vol = draw_volume(rng)
@@ -751,9 +858,14 @@ def search(run, deep):
         check_samplers(run, vol)
     for i in range(250 * mult):
         vol = draw_volume(rng)
-        v = inside_vertex(rng, vol)
+        onb = rng.random() < 0.15
+        v = boundary_vertex(rng, vol) if onb else inside_vertex(rng, vol)
         d, kind = draw_direction(rng, vol, v)
+        if onb and kind == "grazing":
+            d, kind = [rng.gauss(0, 1) for _ in range(3)], "iso"
         run.case(("oracle-exit", vol, tuple(v), tuple(d)))
+        if onb:
+            run.count("oracle_exit_boundary_vertex")
         check_exit(run, vol, v, d, kind)
     for i in range(40 * mult):
         vol = draw_volume(rng)
@@ -790,6 +902,19 @@ def search(run, deep):
         check_distributions(run, 200000)
 
 
+def known_probes(run):
+    """K18: a vertex exactly on the side surface of the cylinder"""
+    vol = ("cyl", 100.0, 500.0)
+    gen = make_gen(vol)
+    fails = 0
+    for v, d in (([0.0, 100.0, -200.0], [0.9, 0.48, -1.04]), ([-100.0, 0.0, -50.0], [0.52, -0.45, -0.27]),
+                 ([0.0, -100.0, -400.0], [0.84, 1.05, -2.3])):
+        if exit_impl(gen, base_particle(v, d)) is None:
+            fails += 1
+    if fails:
+        run.known_finding("K18")
+
+
 def replay(run, data):
     i = data["input"]
     k = data.get("kind")
@@ -799,6 +924,8 @@ def replay(run, data):
         check_exit_inputs(run, tuple(i["volume"]), i["vertex"], i["direction"])
     elif k == "list":
         check_list(run, i["n"], i["loop"], i["calls"])
+    elif k == "reconfigure":
+        check_reconfigure(run, tuple(i["volume"]), i["steps"])
     elif k == "list-history":
         check_list_history(run, i["n"], i["loop"], i["ops"])
     elif k == "weights-reuse":
